@@ -77,94 +77,76 @@ theorem C06_iknp_label_corr_malicious (R0 R1 SS : Nat → Nat → Byte) (delta :
 
 /-! ### Packed-bit form
 
-Full-strength statement of the property (`iknp_bits_corr`), which the code
-does NOT satisfy:
+`ReceiveBits` XORs the choice bits into the u-matrix in `words` 64-bit words
+per chunk.  At /repo HEAD `words := (byteRows + 7) / 8` (commit 564d319), which
+covers every row; before that commit it was `byteRows / 8`, which dropped the
+choices of a partial last word.  The model has the word count as a parameter:
+`receiveBits` is the current code, `receiveBitsOld` the code before the fix
+(kept only to state what was wrong with it). -/
 
-    ∀ n choices, (n+63)/64 ≤ choices.size → ∀ j < n,
-      bitAt received j = (bitAt sent j ^^ (Delta.Bit(0) && bitAt choices j))
-
-`ReceiveBits` XORs the choice bits into the u-matrix in `words = byteRows/8`
-whole 64-bit words per chunk; the remaining `byteRows % 8` byte-rows of the
-last chunk are sent without the choices.  `covered n j` says that row `j` is in
-the XORed part.  Proved below: the exact behaviour (`C06_iknp_bits_exact`), the
-property for the counts where every row is covered (`…_partial`: n % 64 = 0,
-which is all `gmw` uses, or n % 64 ≥ 57), and its negation for every other
-count (`…_fails`) with the concrete witnesses n = 10 and n = 1. -/
-
-/-- Exact behaviour of one `ReceiveBits`/`SendBits` pair on zeroed result
-buffers, for every count `n`: no error branch, all chunks consumed, streams in
-step afterwards, no bit set at positions `≥ n`, and
-`received_j = sent_j xor (Delta.Bit(0) and covered n j and choice_j)`. -/
-theorem C06_iknp_bits_exact (R0 R1 SS : Nat → Nat → Byte) (delta : Label) (hb : BaseOK R0 R1 SS delta)
+/-- `iknp_bits_corr`: one `ReceiveBits`/`SendBits` pair on zeroed result
+buffers, for EVERY count `n` (every n mod 8/64/128/512, also 0): no error
+branch, the sender consumes exactly the receiver's chunks, the streams are in
+step afterwards, no bit is set at positions `≥ n`, and at every position
+`received_j = sent_j xor (Delta.Bit(0) and choice_j)`. -/
+theorem C06_iknp_bits_corr (R0 R1 SS : Nat → Nat → Byte) (delta : Label) (hb : BaseOK R0 R1 SS delta)
     (rs : RecvSt) (ss : SendSt) (hs : InStep rs ss) (choices : Words) (n : Nat)
     (hch : (n + 63) / 64 ≤ choices.size) (more : List Bytes) :
     ∃ rs' ss' rw sw msgs,
       receiveBits R0 R1 rs choices (mk ((n + 63) / 64) fun _ => 0#64) n = some (rs', rw, msgs) ∧
       sendBits SS delta ss n (mk ((n + 63) / 64) fun _ => 0#64) (msgs ++ more) = some (ss', sw, more) ∧
       InStep rs' ss' ∧ rw.size = (n + 63) / 64 ∧ sw.size = (n + 63) / 64 ∧
-      (∀ j, j < n → bitAt rw j = (bitAt sw j ^^ (labelBit delta 0 && (covered n j && bitAt choices j)))) ∧
-      (∀ j, n ≤ j → bitAt rw j = false ∧ bitAt sw j = false) :=
-  bits_call R0 R1 SS delta hb rs ss hs choices n hch more
-
-/-- `iknp_bits_corr_partial`: the packed-bit correlation holds at every
-position when `n % 64 = 0` or `n % 64 ≥ 57` (then `byteRows % 8 = 0` in every
-chunk).  Missing for the full statement: the counts with `1 ≤ n % 64 ≤ 56`. -/
-theorem C06_iknp_bits_corr_partial (R0 R1 SS : Nat → Nat → Byte) (delta : Label) (hb : BaseOK R0 R1 SS delta)
-    (rs : RecvSt) (ss : SendSt) (hs : InStep rs ss) (choices : Words) (n : Nat)
-    (hch : (n + 63) / 64 ≤ choices.size) (hn : n % 64 = 0 ∨ 57 ≤ n % 64) :
-    ∃ rs' ss' rw sw msgs,
-      receiveBits R0 R1 rs choices (mk ((n + 63) / 64) fun _ => 0#64) n = some (rs', rw, msgs) ∧
-      sendBits SS delta ss n (mk ((n + 63) / 64) fun _ => 0#64) msgs = some (ss', sw, []) ∧
-      InStep rs' ss' ∧
-      ∀ j, j < n → bitAt rw j = (bitAt sw j ^^ (labelBit delta 0 && bitAt choices j)) := by
-  obtain ⟨rs', ss', rw, sw, msgs, h1, h2, h3, _, _, h6, _⟩ :=
-    bits_call R0 R1 SS delta hb rs ss hs choices n hch []
-  rw [List.append_nil] at h2
-  refine ⟨rs', ss', rw, sw, msgs, h1, h2, h3, ?_⟩
+      (∀ j, j < n → bitAt rw j = (bitAt sw j ^^ (labelBit delta 0 && bitAt choices j))) ∧
+      (∀ j, n ≤ j → bitAt rw j = false ∧ bitAt sw j = false) := by
+  obtain ⟨rs', ss', rw, sw, msgs, h1, h2, h3, h4, h5, h6, h7⟩ :=
+    bits_call wordsHead R0 R1 SS delta hb rs ss hs choices n hch more
+  refine ⟨rs', ss', rw, sw, msgs, h1, h2, h3, h4, h5, ?_, h7⟩
   intro j hj
-  rw [h6 j hj, covered_of_good n j hj hn, Bool.true_and]
+  rw [h6 j hj, covered_head n j hj, Bool.true_and]
 
-example : (1024 % 64 = 0 ∨ 57 ≤ 1024 % 64) ∧ (1 + 63) / 64 ≤ (#[0#64] : Words).size := by decide
+example : (10 + 63) / 64 ≤ (#[0x3ff#64] : Words).size := by decide
 
-/-- `iknp_bits_corr` is FALSE for every count with `1 ≤ n % 64 ≤ 56`: whenever
-`Delta.Bit(0) = 1` and the last choice bit is 1, the receiver's last bit
-equals the sender's instead of its complement — for all streams and states. -/
-theorem C06_iknp_bits_corr_fails (R0 R1 SS : Nat → Nat → Byte) (delta : Label) (hb : BaseOK R0 R1 SS delta)
+/-- The same by plain evaluation of the model at the input that used to fail
+(n = 1, zero streams, choice bit 1, `Delta.Bit(0) = 1`): sender bit 1,
+receiver bit 0 (before the fix both were 0). -/
+theorem C06_iknp_bits_corr_eval :
+    (runCall (fun _ _ => 0#8) (fun _ _ => 0#8) (fun _ _ => 0#8) (1#128 <<< 64) RecvSt.init SendSt.init
+      (.bits 1 #[1#64])).map (fun r => (r.2.2.1.sentW, r.2.2.1.rcvdW)) = some (#[1#64], #[0#64]) := by
+  decide +kernel
+
+/-- What was wrong before 564d319 (`receiveBitsOld`, `words := byteRows / 8`):
+for every count with `1 ≤ n % 64 ≤ 56`, whenever `Delta.Bit(0) = 1` and the
+last choice bit is 1, the receiver's last bit equalled the sender's instead of
+its complement — for all streams and states.  The check replays this on a tree
+with the fix reverted (oracle signature `c06-bits-corr`). -/
+theorem C06_iknp_bits_old_fails (R0 R1 SS : Nat → Nat → Byte) (delta : Label) (hb : BaseOK R0 R1 SS delta)
     (rs : RecvSt) (ss : SendSt) (hs : InStep rs ss) (choices : Words) (n : Nat)
     (hch : (n + 63) / 64 ≤ choices.size) (h1 : 1 ≤ n % 64) (h2 : n % 64 ≤ 56)
     (hd : labelBit delta 0 = true) (hc : bitAt choices (n - 1) = true) :
     ∃ rs' ss' rw sw msgs,
-      receiveBits R0 R1 rs choices (mk ((n + 63) / 64) fun _ => 0#64) n = some (rs', rw, msgs) ∧
+      receiveBitsOld R0 R1 rs choices (mk ((n + 63) / 64) fun _ => 0#64) n = some (rs', rw, msgs) ∧
       sendBits SS delta ss n (mk ((n + 63) / 64) fun _ => 0#64) msgs = some (ss', sw, []) ∧
       ¬ (∀ j, j < n → bitAt rw j = (bitAt sw j ^^ (labelBit delta 0 && bitAt choices j))) := by
   obtain ⟨rs', ss', rw, sw, msgs, e1, e2, _, _, _, h6, _⟩ :=
-    bits_call R0 R1 SS delta hb rs ss hs choices n hch []
+    bits_call wordsOld R0 R1 SS delta hb rs ss hs choices n hch []
   rw [List.append_nil] at e2
   refine ⟨rs', ss', rw, sw, msgs, e1, e2, ?_⟩
   intro hall
   have hn : n - 1 < n := by omega
   have a := hall (n - 1) hn
-  rw [h6 (n - 1) hn, not_covered_last n h1 h2, hd, hc] at a
+  rw [h6 (n - 1) hn, not_covered_old_last n h1 h2, hd, hc] at a
   cases h : bitAt sw (n - 1) <;> simp [h] at a
 
-/-- Concrete witness n = 10 (all-ones choices, `Delta = Label{D0: 1}`, any
-streams): replayed on the Go code by the harness (`c06-bits-corr`). -/
-theorem C06_iknp_bits_corr_witness (R0 R1 : Nat → Nat → Byte) :
+/-- Concrete instance n = 10 (all-ones choices, `Delta = Label{D0: 1}`) of the
+old defect. -/
+theorem C06_iknp_bits_old_witness (R0 R1 : Nat → Nat → Byte) :
     ∃ rs' ss' rw sw msgs,
-      receiveBits R0 R1 RecvSt.init #[0x3ff#64] (mk 1 fun _ => 0#64) 10 = some (rs', rw, msgs) ∧
+      receiveBitsOld R0 R1 RecvSt.init #[0x3ff#64] (mk 1 fun _ => 0#64) 10 = some (rs', rw, msgs) ∧
       sendBits (fun i p => if labelBit (1#128 <<< 64) i then R1 i p else R0 i p) (1#128 <<< 64) SendSt.init 10
         (mk 1 fun _ => 0#64) msgs = some (ss', sw, []) ∧
       ¬ (∀ j, j < 10 → bitAt rw j = (bitAt sw j ^^ (labelBit (1#128 <<< 64) 0 && bitAt #[0x3ff#64] j))) :=
-  C06_iknp_bits_corr_fails R0 R1 _ (1#128 <<< 64) (fun _ _ _ => rfl) _ _ InStep.init #[0x3ff#64] 10
+  C06_iknp_bits_old_fails R0 R1 _ (1#128 <<< 64) (fun _ _ _ => rfl) _ _ InStep.init #[0x3ff#64] 10
     (by decide) (by decide) (by decide) (by decide) (by decide)
-
-/-- The same defect by plain evaluation of the model (n = 1, zero streams,
-choice bit 1, `Delta.Bit(0) = 1`): both parties output bit 0, the property
-demands `received = sent xor 1`. -/
-theorem C06_iknp_bits_corr_witness_eval :
-    (runCall (fun _ _ => 0#8) (fun _ _ => 0#8) (fun _ _ => 0#8) (1#128 <<< 64) RecvSt.init SendSt.init
-      (.bits 1 #[1#64])).map (fun r => (r.2.2.1.sentW, r.2.2.1.rcvdW)) = some (#[0#64], #[0#64]) := by
-  decide +kernel
 
 /-- `iknp_*` for any sequence of calls on one initialised pair (label form,
 malicious-mode label form and packed-bit form in any order): the session runs
